@@ -373,6 +373,10 @@ func c12(c *core.Ctx) {
 		targetedResponseDuringClose(c, int(i))
 		c.Distinct(uint64(i) | 25<<50)
 	})
+	c.Section("real-connections", 8, func(i int64, _ *gen.Rand) {
+		targetedRealConnections(c, int(i%4))
+		c.Distinct(uint64(i) | 32<<50)
+	})
 	c.Section("idle-read-errors", 7, func(i int64, _ *gen.Rand) {
 		targetedIdleReadErrors(c, []int{3, 999, 1000, 2500, 65535, 65536, 70000}[i])
 		c.Distinct(uint64(i) | 21<<50)
